@@ -129,16 +129,26 @@ class TextGen:
             texts = [None, r.choice(DOC_TEXTS), r.choice(DOC_TEXTS)]
             form = r.choice(["line", "two-lines", "attr", "block", "block-blank", "block+line", "attr-multiline", "attr-multiline+attr",
                              "block-nested"])
+            # other attributes on the documented node (the same for every member of the group)
+            fctx = r.choice([None, None, None, '#[ts(type = "string")]', '#[ts(as = "String")]', "#[ts(inline)]", "#[ts(optional)]",
+                             '#[ts(rename = "alpha")]', "#[serde(default)]"])
+            if shape in ("tuple", "enum-unit"):
+                fctx = None
+            cctx = r.choice([None, None, None, '#[ts(rename_all = "lowercase")]', "#[ts(optional_fields)]", '#[ts(tag = "t")]']) if shape == "named" else None
+            alpha_ty = Ty("opt", args=[prim("i32")]) if fctx == "#[ts(optional)]" else prim("i32")
+            fextra = [fctx] if fctx else []
+            cextra = [cctx] if cctx else []
             for vi, t in enumerate(texts):
                 docs = doc_attr_lines(r, t, form) if t is not None else []
                 cdocs = docs if position == "container" else []
                 fdocs = docs if position in ("field", "variant-field", "flattened-field") else []
                 vdocs = docs if position == "variant" else []
                 if shape == "named":
-                    it = self.mk("named", docs=cdocs, fields=[Field("alpha", prim("i32"), docs=fdocs), Field("beta", Ty("opt", args=[prim("String")]))])
+                    it = self.mk("named", docs=cdocs, extra_attrs=list(cextra),
+                                 fields=[Field("alpha", alpha_ty, docs=fdocs, extra_attrs=list(fextra)), Field("beta", Ty("opt", args=[prim("String")]))])
                 elif shape == "enum-struct-variant":
                     it = self.mk("enum", docs=cdocs, tag="kind", variants=[
-                        Variant("First", "struct", [Field("alpha", prim("i32"), docs=fdocs)], docs=vdocs),
+                        Variant("First", "struct", [Field("alpha", alpha_ty, docs=fdocs, extra_attrs=list(fextra))], docs=vdocs),
                         Variant("Second", "unit")])
                 elif shape == "tuple":
                     it = self.mk("tuple", docs=cdocs, fields=[Field(None, prim("i32")), Field(None, prim("bool"))])
@@ -147,11 +157,13 @@ class TextGen:
                 else:
                     inner = self.mk("named", fields=[Field("inner_a", prim("u8"))])
                     self.add(inner, position="helper", cls="helper", text="")
-                    it = self.mk("named", fields=[Field("alpha", prim("i32"), docs=fdocs if position == "field" else []),
+                    it = self.mk("named", fields=[Field("alpha", alpha_ty, docs=fdocs if position == "field" else [], extra_attrs=list(fextra)),
                                                    Field("flat", Ty("user", item=inner), flatten=True,
                                                          docs=fdocs if position == "flattened-field" else [])])
                 self.add(it, position=position, cls=(t[0] if t else "none"), text=(t[1] if t else None), group=f"{self.prefix}g{gi}",
                          variant=vi, form=form, shape=shape,
+                         ctx=((fctx or "").split("(")[-1].split(" ")[0].rstrip(")]") or None) if shape != "named" or not cctx else
+                         "+".join(x.split("(")[-1].split(" ")[0].rstrip(")]") for x in (fctx, cctx) if x),
                          documents=("alpha" if position in ("field", "variant-field") else ("@container" if position == "container" else None)))
 
     # ---- merge pairs: two documented types in one file ---------------------------------------
